@@ -6,7 +6,7 @@
    expected_record (what a listener must be handed), marshalable (documented precondition of
    the API: the values to publish are JSON-serialisable). *)
 From Coq Require Import String.
-From GoRes Require Import Event.Spec Event.Proofs Event.ProofsOrder Event.ProofsOracle Run.Run_C08.
+From GoRes Require Import Event.Spec Event.Proofs Event.ProofsOrder Event.ProofsOracle Event.ProofsReentrant Run.Run_C08.
 Open Scope N_scope.
 
 (* the model of each event method IS the property's case table, for every resource type,
@@ -103,6 +103,62 @@ Theorem unmarshalable_listens_without_publish : forall ty rid ls a,
    ++ map (fun l => EListen l (expected_record rid a)) ls, None).
 Proof. exact unmarshalable_listens_without_publish_pf. Qed.
 
+(* ---- re-entrant listeners: a listener may react by emitting an event on ev.Resource from
+   inside its call (Event/Model.v notify_r; one level).  [block inner ev l] = the entry of
+   listener l with record ev followed by the effects of its reaction; [ran] = the listeners
+   called: all, up to and including the first whose reaction panics ---- *)
+Theorem event_call_any_listener_loop : forall nf ty rid a,
+  is_event a = true -> event_call_g nf ty rid a = spec_call_g nf ty rid a.
+Proof. exact event_call_g_spec_pf. Qed.
+Theorem notify_r_spec : forall inner ls ev,
+  notify_r inner ls ev = (concat (map (block inner ev) (ran inner ls)), first_panic inner ls).
+Proof. exact notify_r_spec_pf. Qed.
+(* event_shape with re-entrant listeners: the inner event's effects lie inside the outer listener
+   loop, and EVERY outer listener - also those after the re-entrant one - is handed the OUTER
+   event's record (expected_record rid a) *)
+Theorem event_shape_reentrant : forall ty rid ls a effs p,
+  is_event a = true -> marshalable a = true -> event_call_r ty rid ls a = (effs, p) ->
+  let inner := event_call ty rid (map l_id ls) in
+  ((invalid_call ty a <> None \/ empty_change a = true) /\ effs = [] /\ p = invalid_call ty a)
+  \/
+  (invalid_call ty a = None /\ empty_change a = false /\
+   exists ret, ret_of a = Some ret /\ effs = [EApply (kind_of a) (apply_args rid a) ret] /\
+     ((exists e, apply_fails a = Some e /\ ret = RFail e /\ p = Some (PApply e)) \/
+      (apply_fails a = None /\ nothing_changed a = true /\ p = None)))
+  \/
+  (invalid_call ty a = None /\ empty_change a = false /\ apply_fails a = None /\
+   nothing_changed a = false /\ p = first_panic inner ls /\
+   exists pay,
+     effs = match ret_of a with
+            | Some ret => [EApply (kind_of a) (apply_args rid a) ret]
+            | None => []
+            end
+            ++ [EPublish (subject rid (event_name a)) pay]
+            ++ concat (map (block inner (expected_record rid a)) (ran inner ls))).
+Proof. exact event_shape_reentrant_pf. Qed.
+Theorem listener_payload_reentrant : forall ty rid ls a l,
+  let inner := event_call ty rid (map l_id ls) in
+  In l (ran inner ls) ->
+  exists tl, block inner (expected_record rid a) l = EListen (l_id l) (expected_record rid a) :: tl /\
+             tl = match l_react l with Some a' => fst (inner a') | None => [] end.
+Proof. exact listener_payload_reentrant_pf. Qed.
+Theorem ran_all : forall inner ls, first_panic inner ls = None -> ran inner ls = ls.
+Proof. exact ran_all_pf. Qed.
+Theorem ran_prefix : forall inner ls, exists k, ran inner ls = firstn k ls.
+Proof. exact ran_prefix_pf. Qed.
+Theorem failed_publishes_nothing_reentrant : forall ty rid ls a effs p,
+  is_event a = true -> event_call_r ty rid ls a = (effs, p) ->
+  (invalid_call ty a <> None \/ empty_change a = true \/ apply_fails a <> None \/ nothing_changed a = true) ->
+  no_pub_no_listen effs /\
+  ((invalid_call ty a <> None \/ empty_change a = true) -> effs = []) /\
+  (invalid_call ty a <> None -> p = invalid_call ty a) /\
+  (invalid_call ty a = None -> empty_change a = false -> forall e, apply_fails a = Some e -> p = Some (PApply e)).
+Proof. exact failed_publishes_nothing_reentrant_pf. Qed.
+(* without reacting listeners this is the plain model of the theorems above *)
+Theorem reentrant_conservative : forall ty rid ls a,
+  is_event a = true -> no_reaction ls = true -> event_call_r ty rid ls a = event_call ty rid (map l_id ls) a.
+Proof. exact reentrant_conservative_pf. Qed.
+
 (* ---- non-vacuity ---- *)
 Definition ex_rid := s2b "t.m".
 Definition ex_changed : vmap := [(s2b "a", VJson (s2b "1")); (s2b "b", VNil)].
@@ -139,7 +195,7 @@ Proof. split; [exists (EPlain (s2b "x")); vm_compute; split; reflexivity|]. vm_c
 (* a callback: event, pre-response, reply, event after the reply, then an invalid call; the
    panic after the reply publishes nothing more *)
 Example program_order_nonvacuous :
-  pubs (fst (run_callback (CtxCall (s2b "r0")) TCollection ex_rid [7]
+  pubs (fst (run_callback (CtxCall (s2b "r0")) TCollection ex_rid [L 7 None]
     [AAdd (VJson (s2b "5")) 3 (Ok tt); ATimeout 100; AReply; AReaccess; ARemove (-1) Absent; AReset])) =
   [(s2b "event.t.m.add", s2b "{""value"":5,""idx"":3}");
    (s2b "r0", s2b "timeout:""100""");
@@ -195,3 +251,23 @@ Theorem oracle_complete : forall ty rid ls a l,
          ++ [EPublish subj pay]
          ++ map (fun i => EListen i (record_from rid a (log_ret l))) ls).
 Proof. exact oracle_complete_pf. Qed.
+
+(* listener 2 reacts to the add event with a custom event: the inner event (publish, listeners
+   1 2 3 with the inner record) lies between the outer entries of listeners 2 and 3, and
+   listener 3 still gets the add event's record *)
+Example reentrant_nonvacuous :
+  let ls := [L 1 None; L 2 (Some (ACustom (s2b "x") VNil)); L 3 None] in
+  let outer := Ev n_add ex_rid None None (VJson (s2b "5")) 0 VNil VNil in
+  let inner := Ev (s2b "x") ex_rid None None VNil 0 VNil VNil in
+  event_call_r TCollection ex_rid ls (AAdd (VJson (s2b "5")) 0 Absent) =
+  ([EPublish (s2b "event.t.m.add") (s2b "{""value"":5,""idx"":0}");
+    EListen 1 outer; EListen 2 outer;
+    EPublish (s2b "event.t.m.x") []; EListen 1 inner; EListen 2 inner; EListen 3 inner;
+    EListen 3 outer], None).
+Proof. vm_compute. reflexivity. Qed.
+(* a reaction that panics (reserved name) unwinds the outer call: listener 3 is not called *)
+Example reentrant_panic_nonvacuous :
+  let ls := [L 1 None; L 2 (Some (ACustom (s2b "patch") VNil)); L 3 None] in
+  lids (fst (event_call_r TCollection ex_rid ls (AAdd VNil 0 Absent))) = [1; 2] /\
+  snd (event_call_r TCollection ex_rid ls (AAdd VNil 0 Absent)) = Some (PReserved (s2b "patch")).
+Proof. vm_compute. split; reflexivity. Qed.
